@@ -134,13 +134,16 @@ Theorem C12_cache_open_stale_reports : forall (B L : Type) (bstep : B -> op -> B
 Proof. exact @cache_open_stale_reports. Qed.
 Print Assumptions C12_cache_open_stale_reports.
 
-(* CacheOnReadFs.OpenFile: copyFileToLayer opens the base with the caller's flags less O_APPEND (since the fix,
-   copyfiletolayer_clears_append = 1; O_RDONLY stays O_RDONLY, so [read_open] above still covers it); the
-   error of the copy is returned before the (O_EXCL-less) final opens *)
+(* CacheOnReadFs.OpenFile: the base is Stat-ed first (since the fix, cache_openfile_dir_mkdir = 1: a directory is
+   made in the layer with MkdirAll, not copied); for anything that is not a directory copyFileToLayer opens the
+   base with the caller's flags less O_APPEND (since the fix, copyfiletolayer_clears_append = 1; O_RDONLY stays
+   O_RDONLY, so [read_open] above still covers it); the error of the copy is returned before the (O_EXCL-less)
+   final opens *)
 Theorem C12_cache_openfile_reports : forall (B L : Type) (bstep : B -> op -> B * res) (lstep : L -> op -> L * res)
-    dur now sb sl tbl name flag perm sb1 sl1 cs fi sb2 sl2 ce,
+    dur now sb sl tbl name flag perm sb1 sl1 cs fi sb1' rs sb2 sl2 ce,
   cache_status bstep lstep dur now sb sl name = (sb1, sl1, cs, fi, None) -> cs = CMiss \/ cs = CStale ->
-  copy_to_layer_with bstep lstep sb1 sl1 name (OpenFile name (Z.land flag (Z.lnot o_append)) perm) = (sb2, sl2, Some ce) ->
+  bstep sb1 (Stat name) = (sb1', rs) -> (forall bfi, rs = RInfo bfi -> fi_dir bfi = false) ->
+  copy_to_layer_with bstep lstep sb1' sl1 name (OpenFile name (Z.land flag (Z.lnot o_append)) perm) = (sb2, sl2, Some ce) ->
   cache_step bstep lstep dur now (sb, sl, tbl) (OpenFile name flag perm) = ((sb2, sl2, tbl), RErr ce).
 Proof. exact @cache_openfile_reports. Qed.
 Print Assumptions C12_cache_openfile_reports.
